@@ -1,12 +1,12 @@
 /* C19.H2 - a compile-time unit that stores arena pointers while the arena grows: yr_ac_add_string (ahocorasick.c)
- * called for two strings that share one atom, with the match pool's capacity at ONE entry and a realloc that always
+ * called for three strings that share one atom, with the match pool's capacity at ONE entry and a realloc that always
  * moves - every allocation relocates the pool, so a pointer that is not registered for relocation (or a raw pointer
  * kept across the allocation) becomes a use-after-free that CBMC's pointer checks report.
  * Symbolic: atom bytes and length (1..2), backtrack values.
  * Post: the state's match list, resolved through the arena AFTER all growth, holds both matches, newest first, each
  * pointing to its own YR_STRING in the (current) strings table, `next` chaining inside the current pool buffer.
  */
-#define VF_OBJ 256
+#define VF_OBJ 512
 #include "common/arena_env.h"
 #include <yara/ahocorasick.h>
 #include <yara/compiler.h>
@@ -19,15 +19,15 @@ int main(void)
   YR_ARENA* a = NULL;
   int rc = yr_arena_create(YR_NUM_SECTIONS, sizeof(YR_AC_MATCH), &a); /* room for exactly one match: the 2nd add relocates */
   VF_ASSUME(rc == ERROR_SUCCESS);
-  rc = yr_arena_allocate_zeroed_memory(a, YR_STRINGS_TABLE, 2 * sizeof(YR_STRING), NULL);
+  rc = yr_arena_allocate_zeroed_memory(a, YR_STRINGS_TABLE, 3 * sizeof(YR_STRING), NULL);
   VF_ASSUME(rc == ERROR_SUCCESS);
   YR_AC_AUTOMATON* au = NULL;
   rc = yr_ac_automaton_create(a, &au);
   VF_ASSUME(rc == ERROR_SUCCESS);
-  static YR_ATOM_LIST_ITEM atom[2];
+  static YR_ATOM_LIST_ITEM atom[3];
   uint8_t len = (uint8_t) vf_range(1, 2);
   uint8_t b0 = vf_u8(), b1 = vf_u8();
-  for (int k = 0; k < 2; k++)
+  for (int k = 0; k < 3; k++)
   {
     atom[k].atom.length = len;
     atom[k].atom.bytes[0] = b0; atom[k].atom.bytes[1] = b1;
@@ -42,6 +42,9 @@ int main(void)
   VF_ASSERT(rc == ERROR_SUCCESS, "adding a string succeeds");
   rc = yr_ac_add_string(au, &strings[1], 1, &atom[1], a);
   VF_ASSERT(rc == ERROR_SUCCESS, "adding a second string with the same atom succeeds");
+  strings = (YR_STRING*) yr_arena_get_ptr(a, YR_STRINGS_TABLE, 0);
+  rc = yr_ac_add_string(au, &strings[2], 2, &atom[2], a);   /* relocates the pool once more, AFTER the 2nd match's pointers were stored */
+  VF_ASSERT(rc == ERROR_SUCCESS, "adding a third string succeeds");
   /* resolve everything through the arena as it is NOW */
   YR_AC_STATE* st = au->root->first_child;
   VF_ASSERT(st != NULL && st->input == b0, "the automaton has a state for the atom's first byte");
@@ -49,9 +52,10 @@ int main(void)
   strings = (YR_STRING*) yr_arena_get_ptr(a, YR_STRINGS_TABLE, 0);
   YR_AC_MATCH* pool = (YR_AC_MATCH*) yr_arena_get_ptr(a, YR_AC_STATE_MATCHES_POOL, 0);
   YR_AC_MATCH* m = (YR_AC_MATCH*) yr_arena_ref_to_ptr(a, &st->matches_ref);
-  VF_ASSERT(m == &pool[1], "the state's match list starts with the newest match, in the current pool buffer");
-  VF_ASSERT(m->string == &strings[1] && m->backtrack == len + atom[1].backtrack, "the newest match belongs to the second string");
-  VF_ASSERT(m->next == &pool[0], "its `next` pointer was relocated together with the pool");
+  VF_ASSERT(m == &pool[2], "the state's match list starts with the newest match, in the current pool buffer");
+  VF_ASSERT(m->string == &strings[2] && m->backtrack == len + atom[2].backtrack, "the newest match belongs to the third string");
+  VF_ASSERT(m->next == &pool[1], "its `next` pointer points into the current pool buffer");
+  VF_ASSERT(pool[1].string == &strings[1] && pool[1].next == &pool[0], "pointers stored BEFORE the pool moved again were relocated with it (string, next)");
   VF_ASSERT(pool[0].string == &strings[0] && pool[0].backtrack == len + atom[0].backtrack && pool[0].next == NULL, "the first match is intact after the pool moved");
   VF_WITNESS("end");
   return 0;
